@@ -365,6 +365,33 @@ def creation_sites(prog, body):
     return out
 
 
+def resolved_access_path(prog, body, o, depth=0):
+    """access path of o with closure captures resolved through the creating bodies: inside
+    `move || storage.set(key, value)` the path of `key` is whatever the parent moved in (e.g.
+    `self.key`, also after `let Set { key, value } = self;`)"""
+    p = access_path(o)
+    if p is None or depth > 4 or body.def_kind != "Closure":
+        return p
+    cs = creation_sites(prog, body)
+    if len(cs) != 1:
+        return p
+    pb, pbb = cs[0]
+    for st in pb.blocks[pbb]["stmts"]:
+        if st["k"] == "assign" and st["rv"]["k"] == "agg" and st["rv"].get("def") == body.path:
+            ao = pb.origin_rvalue(st["rv"])
+            best = None
+            for fld, fo in ao[4].items():
+                n = fld.replace("__", ".")
+                if p == n or p.startswith(n + ".") or p.startswith(n + "<"):
+                    if best is None or len(n) > len(best[0]):
+                        best = (n, fo)
+            if best is not None:
+                pp = resolved_access_path(prog, pb, best[1], depth + 1)
+                if pp is not None:
+                    return pp + p[len(best[0]):]
+    return p
+
+
 # ---------------------------------------------------------------------------------------------
 # Interprocedural origins: see through crate-local helpers by substituting the helper's returned
 # origin (when it has a single non-error return shape) for the call, with parameters replaced by
